@@ -13,6 +13,7 @@ use crate::iter::BoxedLSMIterator;
 use crate::levels::Levels;
 use crate::lsm::Core;
 use crate::memtable::MemTable;
+use crate::vlog::VLogIteratorPin;
 use crate::{
 	BytewiseComparator,
 	Comparator,
@@ -172,14 +173,20 @@ impl Snapshot {
 	/// Collects the iterator state from all LSM components
 	/// This is a helper method used by both iterators and optimized operations
 	/// like count
-	pub(crate) fn collect_iter_state(&self) -> Result<IterState> {
+	pub(crate) fn collect_iter_state(&self) -> Result<(IterState, Option<VLogIteratorPin>)> {
 		Self::collect_iter_state_from(&self.core)
 	}
 
 	/// Same as `collect_iter_state`, for callers that have no `Snapshot` value
 	/// (building one just for this call would unregister its sequence number
 	/// again when it is dropped).
-	fn collect_iter_state_from(core: &Arc<Core>) -> Result<IterState> {
+	///
+	/// The tables collected here stay readable for as long as the iterator holds
+	/// them, but the value-log files their pointers lead to are removed once no
+	/// LIVE table references them. The returned pin keeps those files; it is taken
+	/// while the manifest read lock is held (clean-up holds the write lock) and
+	/// must live as long as the iterator.
+	fn collect_iter_state_from(core: &Arc<Core>) -> Result<(IterState, Option<VLogIteratorPin>)> {
 		// Lock order (see `CoreInner`): active_memtable -> level_manifest ->
 		// immutable_memtables. Flush and compaction take the manifest and then
 		// the immutable queue for writing; taking them here in the opposite
@@ -189,12 +196,17 @@ impl Snapshot {
 		let immutable =
 			guardian::ArcRwLockReadGuardian::take(Arc::clone(&core.immutable_memtables))?;
 
-		Ok(IterState {
-			active: active.clone(),
-			immutable: immutable.iter().map(|entry| Arc::clone(&entry.memtable)).collect(),
-			levels: manifest.levels.clone(),
-			versioned_index: core.versioned_index.clone(),
-		})
+		let vlog_pin = core.vlog.as_ref().map(|vlog| vlog.pin_for_iterator());
+
+		Ok((
+			IterState {
+				active: active.clone(),
+				immutable: immutable.iter().map(|entry| Arc::clone(&entry.memtable)).collect(),
+				levels: manifest.levels.clone(),
+				versioned_index: core.versioned_index.clone(),
+			},
+			vlog_pin,
+		))
 	}
 
 	/// Gets a single key from the snapshot.
@@ -331,12 +343,12 @@ impl Snapshot {
 			lower.map(Bound::Included).unwrap_or(Bound::Unbounded),
 			upper.map(Bound::Excluded).unwrap_or(Bound::Unbounded),
 		);
-		let iter_state = self.collect_iter_state()?;
+		let (iter_state, vlog_pin) = self.collect_iter_state()?;
 
-		if self.core.opts.enable_versioned_index {
+		let mut iter = if self.core.opts.enable_versioned_index {
 			// Merge memtables (unflushed) + B+tree (flushed with value pointers)
 			let merge_iter = KMergeIterator::new_for_history_with_btree(iter_state, range)?;
-			Ok(HistoryIterator::new(
+			HistoryIterator::new(
 				merge_iter,
 				self.seq_num,
 				include_tombstones,
@@ -344,10 +356,10 @@ impl Snapshot {
 				upper,
 				ts_range,
 				limit,
-			))
+			)
 		} else {
 			// Merge memtables + SSTables (no B+tree)
-			Ok(HistoryIterator::new_lsm(
+			HistoryIterator::new_lsm(
 				self.seq_num,
 				iter_state,
 				range,
@@ -356,8 +368,10 @@ impl Snapshot {
 				limit,
 				lower,
 				upper,
-			))
-		}
+			)
+		};
+		iter.vlog_pin = vlog_pin;
+		Ok(iter)
 	}
 
 	/// Queries for a specific key at a specific timestamp.
@@ -942,12 +956,16 @@ pub(crate) struct SnapshotIterator<'a> {
 
 	/// Whether the iterator has been initialized
 	initialized: bool,
+
+	/// Keeps the value-log files the pinned tables point into
+	#[allow(dead_code)]
+	vlog_pin: Option<VLogIteratorPin>,
 }
 
 impl SnapshotIterator<'_> {
 	/// Creates a new iterator over a specific key range
 	fn new_from(core: Arc<Core>, seq_num: u64, range: InternalKeyRange) -> Result<Self> {
-		let iter_state = Snapshot::collect_iter_state_from(&core)?;
+		let (iter_state, vlog_pin) = Snapshot::collect_iter_state_from(&core)?;
 
 		let merge_iter = KMergeIterator::new_from(iter_state, range);
 
@@ -964,6 +982,7 @@ impl SnapshotIterator<'_> {
 			has_current_back: false,
 			direction: MergeDirection::Forward,
 			initialized: false,
+			vlog_pin,
 		})
 	}
 
@@ -1364,6 +1383,9 @@ pub struct HistoryIterator<'a> {
 	limit: Option<usize>,
 	entries_returned: usize,
 	limit_reached: bool,
+
+	/// Keeps the value-log files the pinned tables point into
+	vlog_pin: Option<VLogIteratorPin>,
 }
 
 impl<'a> HistoryIterator<'a> {
@@ -1398,6 +1420,7 @@ impl<'a> HistoryIterator<'a> {
 			limit,
 			entries_returned: 0,
 			limit_reached: false,
+			vlog_pin: None,
 		}
 	}
 
